@@ -54,12 +54,14 @@ type jv struct {
 
 var jUndef = jv{k: jvUndef}
 
-func jNum(f float64) jv   { return jv{k: jvNum, f: f} }
-func jBig(b *big.Int) jv  { return jv{k: jvBig, b: b} }
-func jBool(b bool) jv     { return jv{k: jvBool, f: map[bool]float64{false: 0, true: 1}[b]} }
-func jStr(s string) jv    { return jv{k: jvStr, s: s} }
-func (v jv) isNaN() bool  { return v.k == jvNum && math.IsNaN(v.f) }
-func (v jv) truthy() bool { return (v.k == jvNum && v.f != 0 && !math.IsNaN(v.f)) || (v.k == jvBool && v.f != 0) || (v.k == jvBig && v.b.Sign() != 0) || (v.k == jvStr && v.s != "") }
+func jNum(f float64) jv  { return jv{k: jvNum, f: f} }
+func jBig(b *big.Int) jv { return jv{k: jvBig, b: b} }
+func jBool(b bool) jv    { return jv{k: jvBool, f: map[bool]float64{false: 0, true: 1}[b]} }
+func jStr(s string) jv   { return jv{k: jvStr, s: s} }
+func (v jv) isNaN() bool { return v.k == jvNum && math.IsNaN(v.f) }
+func (v jv) truthy() bool {
+	return (v.k == jvNum && v.f != 0 && !math.IsNaN(v.f)) || (v.k == jvBool && v.f != 0) || (v.k == jvBig && v.b.Sign() != 0) || (v.k == jvStr && v.s != "")
+}
 
 func numDesc(f float64) string {
 	switch {
